@@ -18,9 +18,9 @@ PRE = '''
 Definition fclose (a b : float) : bool := PrimFloat.leb (PrimFloat.abs (PrimFloat.sub a b)) 0x1.0p-30%float.
 Fixpoint all2b {A B} (f : A -> B -> bool) (l1 : list A) (l2 : list B) : bool :=
   match l1, l2 with x :: r1, y :: r2 => f x y && all2b f r1 r2 | [], [] => true | _, _ => false end.
-Definition item_ok (it : sitem (T:=float)) (e : nat * nat * float * nat * bool) : bool :=
-  let '(a1, a2, d, n, c) := e in
-  Nat.eqb (it_a1 it) a1 && Nat.eqb (it_a2 it) a2 && fclose (it_dist it) d && Nat.eqb (it_n it) n && Bool.eqb (it_cov it) c.
+Definition item_ok (it : sitem (T:=float)) (e : nat * nat * float * nat * bool * bool) : bool :=
+  let '(a1, a2, d, n, c, tie) := e in
+  Nat.eqb (it_a1 it) a1 && Nat.eqb (it_a2 it) a2 && fclose (it_dist it) d && (tie || Nat.eqb (it_n it) n) && Bool.eqb (it_cov it) c.
 Definition need_ok (nd : need (T:=float)) (e : nat * float * float * float * Z) : bool :=
   let '(n, fx, fy, fz, m) := e in
   Nat.eqb (nd_n nd) n && PrimFloat.eqb (nd_fx nd) fx && PrimFloat.eqb (nd_fy nd) fy && PrimFloat.eqb (nd_fz nd) fz && Z.eqb (nd_mol nd) m.
@@ -81,10 +81,36 @@ def coq_defs(ob, k):
     return '\n'.join(d)
 
 
+def tied_items(ob):
+    """pairs for which two operators give the same wrapped distance to within 1e-9 (a rotation and its inverse applied to the
+    same atom, atoms on symmetry elements): which of them is reported depends on the last bit of the float evaluation, so the
+    operator number of such an item is not compared"""
+    atoms = ob['atoms']
+    sdm = ob['sdm']
+    ops = [([[o.matrix[i, j] for j in range(3)] for i in range(3)], [float(t) for t in o.trans]) for o in ob['ops']]
+    tied = set()
+    for a1, a2, d, n, c in ob['items']:
+        x1 = [atoms[a1].x, atoms[a1].y, atoms[a1].z]
+        x2 = [atoms[a2].x, atoms[a2].y, atoms[a2].z]
+        ds = []
+        for k, (R, t) in enumerate(ops):
+            p = [sum(R[i][q] * x1[q] for q in range(3)) + t[i] for i in range(3)]
+            D = [p[i] - x2[i] + 0.5 for i in range(3)]
+            dp = [v - math.floor(v) - 0.5 for v in D]
+            ds.append(sdm.vector_length(*dp) + (0.0001 if k else 0.0))
+        far = [v for v in ds if v > 0.01]        # the coincidence of an atom with itself is not a contact
+        best = min(far) if far else 0.0
+        if sum(1 for v in far if abs(v - best) < 1e-9) > 1:
+            tied.add((a1, a2))
+    return tied
+
+
 def coq_checks(ob, k, with_q=False):
     """terms evaluating to bool: items, molindex, needs, grown agree between model (floats) and implementation"""
     atoms = ob['atoms']
-    items = clist(['(%d%%nat, %d%%nat, %s, %d%%nat, %s)' % (a1, a2, fl(d), n, cbool(c)) for a1, a2, d, n, c in ob['items']])
+    tied = tied_items(ob)
+    ob['tied'] = tied
+    items = clist(['(%d%%nat, %d%%nat, %s, %d%%nat, %s, %s)' % (a1, a2, fl(d), n, cbool(c), cbool((a1, a2) in tied)) for a1, a2, d, n, c in ob['items']])
     mol = clist([cz(m) for m in ob['molindex']])
     needs = clist(['(%d%%nat, %s, %s, %s, %s)' % (b[0] - 1, fl(5 - b[1]), fl(5 - b[2]), fl(5 - b[3]), cz(b[4])) for b in ob['need']])
     # source atom of a grown atom: the implementation does not record it; recover it from the operator and coordinates
